@@ -726,6 +726,12 @@ class Gen:
                 hits.append(init)
         if len(hits) != 1:
             raise Inconclusive(f"lost anchor: @expr {sel} in {it['name']} ({src.rel}): {len(hits)} candidates")
+        if "tail" in sel:
+            # the tail expression stands for "the value the function returns": every explicit `return` is another result path and must
+            # be known to the sidecar (`returns=<n>`, default 0), which describes them in the scope of the claim
+            nret = sum(1 for n in walk(body) if n["k"] == "Return")
+            if nret != int(sel.get("returns", 0)):
+                raise Inconclusive(f"lost anchor: @expr tail of {it['name']} ({src.rel}): {nret} explicit `return`s, sidecar expects {sel.get('returns', 0)}")
         e = hits[0]
         self.functions.append((f"expression {sel} of {it['name']}", it["rel"], hashlib.sha256(src.bytes[e["s"]:e["e"]]).hexdigest(),
                                (src.line_of(e["s"]), src.line_of(e["e"]))))
